@@ -44,6 +44,8 @@ def handle (r : RunState) (ln : Nat) (toks : List String) : RunState :=
       | some am' => { r with mach := some am' }
       | none => { r with bad := some s!"line={ln} model cannot start `{op}` on thread {t} (state: {am.describe t.toNat!})" }
     | ["pt", t, tag, v] =>
+      -- harness-level yield points (`h.*`) are not steps of the code
+      if tag.startsWith "h." then r else
       let t := t.toNat!
       match am.tag t with
       | none => { r with bad := some s!"line={ln} code is at hook `{tag}` value={v} but model thread {t} is not at a program point (state: {am.describe t})" }
